@@ -38,7 +38,10 @@ def solve_text(txt, timeout, workdir, tag, try_cvc5=True, both=False):
     path = os.path.join(workdir, tag + '.smt2')
     with open(path, 'w') as f:
         f.write(txt)
-    r, dt, err = _run([Z3, '-smt2', f'-T:{int(timeout)}', path], timeout)
+    # stage 1: z3 with a short budget (almost every obligation is discharged in milliseconds);
+    # stage 2: cvc5 with the full budget; stage 3: z3 again with the full budget and another seed
+    short = min(3, timeout)
+    r, dt, err = _run([Z3, '-smt2', f'-T:{int(short)}', path], short)
     res = dict(verdict=r, solver='z3-5.1.0', time=dt, err=err)
     if (r in ('unknown', 'timeout') and try_cvc5) or both:
         p2 = os.path.join(workdir, tag + '.cvc5.smt2')
@@ -54,6 +57,13 @@ def solve_text(txt, timeout, workdir, tag, try_cvc5=True, both=False):
             os.unlink(p2)
         except OSError:
             pass
+    if res['verdict'] in ('unknown', 'timeout') and timeout > short:
+        r3, dt3, err3 = _run([Z3, '-smt2', f'-T:{int(timeout)}', 'smt.random_seed=7', 'sat.random_seed=7', path], timeout)
+        res['z3_retry'] = dict(verdict=r3, time=dt3)
+        if r3 in ('sat', 'unsat'):
+            res.update(verdict=r3, solver='z3-5.1.0(retry)', time=res['time'] + dt3)
+        else:
+            res['time'] += dt3
     try:
         os.unlink(path)
     except OSError:
